@@ -5,6 +5,7 @@ package main
 
 import (
 	"bufio"
+	"bytes"
 	"encoding/hex"
 	"fmt"
 	"os"
@@ -46,7 +47,9 @@ func childStopUnderLoad(dir string, start, count, closeAfter int) {
 	acked := make(chan int, count)
 	go func() {
 		for i := start; i < start+count; i++ {
-			m := message.New(message.Ssid{7, uint32(11 + i%3)}, []byte(fmt.Sprintf("ch%d/", i%3)), expected(i, nil).Payload)
+			ssid, ch := chanOf(i)
+			m := message.New(ssid, ch, nil)
+			m.Payload = payloadOf(i, len(m.ID))
 			m.TTL = uint32(3600 + i)
 			say("TRY %d %s %d", i, hex.EncodeToString(m.ID), len(m.Payload))
 			if err := s.Store(m); err == nil {
@@ -66,6 +69,30 @@ func childStopUnderLoad(dir string, start, count, closeAfter int) {
 	os.Exit(0)
 }
 
+// payloadOf: small payloads, and now and then one that fills the largest message a query can return
+// (id + channel + payload = 65536 bytes, or a few bytes less)
+func isBig(i int) bool { return i%40 == 5 }
+func chanOf(i int) (message.Ssid, []byte) {
+	if isBig(i) {
+		return message.Ssid{7, 14}, []byte("big/")
+	}
+	return message.Ssid{7, uint32(11 + i%3)}, []byte(fmt.Sprintf("ch%d/", i%3))
+}
+func payloadOf(i, idLen int) []byte {
+	n := 1 + (i*37)%48
+	if isBig(i) {
+		n = 65536 - idLen - len("big/") - (i/40)%9
+	}
+	pl := make([]byte, n)
+	for k := range pl {
+		pl[k] = byte(i + k)
+		if isBig(i) && k >= 16 {
+			pl[k] = byte(i) // a run: written compactly in the Coq term
+		}
+	}
+	return pl
+}
+
 func child(dir string, start, count int, clean bool) {
 	s := storage.NewSSD(nil)
 	if err := s.Configure(map[string]interface{}{"dir": dir}); err != nil {
@@ -75,12 +102,10 @@ func child(dir string, start, count int, clean bool) {
 	fmt.Println("OPEN")
 	out := bufio.NewWriter(os.Stdout)
 	for i := start; i < start+count; i++ {
-		ssid := message.Ssid{7, uint32(11 + i%3)}
-		pl := make([]byte, 1+(i*37)%48)
-		for k := range pl {
-			pl[k] = byte(i + k)
-		}
-		m := message.New(ssid, []byte(fmt.Sprintf("ch%d/", i%3)), pl)
+		ssid, ch := chanOf(i)
+		m := message.New(ssid, ch, nil)
+		m.Payload = payloadOf(i, len(m.ID))
+		pl := m.Payload
 		m.TTL = uint32(3600 + i)
 		fmt.Fprintf(out, "TRY %d %s %d\n", i, hex.EncodeToString(m.ID), len(pl))
 		out.Flush()
@@ -101,11 +126,8 @@ func child(dir string, start, count int, clean bool) {
 }
 
 func expected(i int, id []byte) message.Message {
-	pl := make([]byte, 1+(i*37)%48)
-	for k := range pl {
-		pl[k] = byte(i + k)
-	}
-	return message.Message{ID: id, Channel: []byte(fmt.Sprintf("ch%d/", i%3)), Payload: pl, TTL: uint32(3600 + i)}
+	_, ch := chanOf(i)
+	return message.Message{ID: id, Channel: ch, Payload: payloadOf(i, len(id)), TTL: uint32(3600 + i)}
 }
 
 func main() {
@@ -154,6 +176,7 @@ func main() {
 				panic(err)
 			}
 			killAfter := r.Intn(count + 1) // kill when this many TRY lines were seen (possibly mid-store)
+			probe, probeAt := r.Intn(3) == 0 && os.Getenv("NOPROBE") == "", 1+r.Intn(10)
 			delay := time.Duration(r.Intn(300)) * time.Microsecond
 			sc := bufio.NewScanner(stdout)
 			tried := map[int][]byte{}
@@ -175,6 +198,14 @@ func main() {
 						tried[i] = id
 						triedOrder = append(triedOrder, i)
 						tries++
+						if probe && tries == probeAt {
+							// another broker is started on the directory while this one is alive: it must
+							// be refused and must not disturb the running one
+							other := storage.NewSSD(nil)
+							if err := other.Configure(map[string]interface{}{"dir": dir}); err == nil {
+								other.Close()
+							}
+						}
 						if !clean && tries >= killAfter && tries > 0 {
 							time.Sleep(delay)
 							cmd.Process.Signal(syscall.SIGKILL)
@@ -216,6 +247,20 @@ func main() {
 						recovered = append(recovered, msgTerm(m))
 					}
 				}
+				// the channel of the largest messages: one page holds one of them, continue page by page
+				var from message.ID
+				for page := 0; page < 200; page++ {
+					f, _ := s.Query(message.Ssid{7, 14}, time.Unix(0, 0), time.Unix(0, 0), from, 1000000)
+					if len(f) == 0 {
+						break
+					}
+					for _, m := range f {
+						recovered = append(recovered, msgTerm(m))
+						if from == nil || bytes.Compare(m.ID, from) > 0 {
+							from = append(message.ID{}, m.ID...)
+						}
+					}
+				}
 				s.Close()
 			}
 			var triedTerms []string
@@ -226,5 +271,5 @@ func main() {
 		}
 		sh.Add(vlib.App("CKill", vlib.List(cycleTerms)), map[string]interface{}{"op": "kill/restart cycles", "cycles": cyclesPer, "kills": kills, "clean_stops": cleans, "messages": next}, "kill-cycles", true)
 	}
-	sh.Finish("per state directory: cycles of a child process storing 10-100 messages (acknowledged one by one over a pipe), killed with SIGKILL after a random number of store attempts plus 0-300 us (so also inside a store call) or stopped cleanly (also while the publisher is still storing), then the directory is reopened and every channel queried; all cycles reuse the directory; non-trivial: all")
+	sh.Finish("per state directory: cycles of a child process storing 10-100 messages (acknowledged one by one over a pipe), killed with SIGKILL after a random number of store attempts plus 0-300 us (so also inside a store call) or stopped cleanly (also while the publisher is still storing), in a third of the cycles a second store is opened on the directory while the child is alive (must be refused); now and then a message of exactly the largest size a query can return (65536 bytes, or up to 8 less); then the directory is reopened and every channel queried (the channel of the largest messages page by page); all cycles reuse the directory; non-trivial: all")
 }
